@@ -143,7 +143,7 @@ func (m *gen) fieldTargeted() {
 		if f.Class == "e.kvmd" || f.Class == "hdr.txmd" {
 			for i := f.Lo; i < f.Hi; i++ {
 				c := m.cur(i)
-				for _, v := range []byte{0, 1, 2, 3, 4, 5, 0x7f, 0x80, 0xff, c + 1, c - 1, c ^ 0xff} {
+				for _, v := range []byte{0, 1, 2, 3, 4, 0x80, 0xff, c + 1, c ^ 0xff} {
 					m.add("field", f.Class, []uint64{f.Tx}, fmt.Sprintf("%s byte %d set to %#x", fdesc(f), i-f.Lo, v), map[int]byte{i: v})
 				}
 			}
@@ -160,12 +160,17 @@ func (m *gen) trailerCombos(r *rand.Rand) {
 			alh[f.Tx] = f
 		}
 	}
+	nf := 0
 	for _, f := range m.g.Fields {
 		a, ok := alh[f.Tx]
 		if !ok || f.Class[:3] == "val" || f.Class == "emb.prefix" {
 			continue
 		}
+		nf++
 		for variant := 0; variant < 2; variant++ {
+			if variant == 1 && f.Class != "rec.alh" && nf%3 != 0 {
+				continue
+			}
 			set := map[int]byte{}
 			what := "zeroed"
 			if variant == 1 {
